@@ -5,18 +5,20 @@ From OV Require Import Base.Strs Syn.Escape.
 Theorem C04_emitter_chain_is_escape : forall s, escape_opt s = Some (escape s).
 Proof. exact escape_opt_spec. Qed.
 
-(* the translator-extracted un-escape chain of lexer.py is the four sequential replaces *)
-Theorem C04_lexer_chain_is_unescape : forall s, unescape_opt s = Some (unescape s).
+(* the translator-extracted un-escape of lexer.py (one regex pass over _UNESCAPE_MAP) is the single-pass scanner *)
+Theorem C04_lexer_unescape_is_single_pass : forall s, unescape_opt s = Some (unescape s).
 Proof. exact unescape_opt_spec. Qed.
 
-(* un-escape inverts escape on every string with no backslash directly before n or t *)
-Theorem C04_unescape_escape : forall s, escape_safe s = true -> unescape (escape s) = s.
-Proof. exact unescape_escape. Qed.
+(* un-escape inverts escape on EVERY string (unconditional since the /repo repair 4b61c18; before it the statement
+   needed `no backslash directly before n or t` and was refuted without it: former finding C04-escape-order) *)
+Theorem C04_unescape_escape : forall s, unescape (escape s) = s.
+Proof. exact unescape_escape_all. Qed.
 
-(* full statement (no hypothesis) is false of the faithful model: finding C04-escape-order *)
-Definition C04_unescape_escape_full : Prop := forall s, unescape (escape s) = s.
-Theorem C04_unescape_escape_refuted : exists s, unescape (escape s) <> s.
-Proof. exact unescape_escape_refuted. Qed.
+(* regression: the two strings the four-replace reader got wrong, and what that reader did with them *)
+Theorem C04_unescape_escape_regression :
+  (unescape (escape [c_bs; c_n]) = [c_bs; c_n] /\ unescape (escape [c_bs; c_t]) = [c_bs; c_t]) /\
+  unescape_sequential (escape [c_bs; c_n]) = [c_nl].
+Proof. exact (conj unescape_escape_bs_n sequential_reader_was_wrong). Qed.
 
 Theorem C04_escape_safe_nonvacuous : escape_safe [c_bs; c_bs; c_dq; c_nl; c_tab; 97; c_bs; c_dq; c_bs] = true.
 Proof. exact escape_safe_example. Qed.
@@ -38,9 +40,10 @@ Qed.
 
 Theorem C04_pin_lexer_tables :
   lexer_token_patterns = pinned_lexer_token_patterns /\ lexer_ascii_aliases = pinned_lexer_ascii_aliases /\
-  lexer_operator_chars = pinned_lexer_operator_chars /\ lexer_unescape_chain = pinned_lexer_unescape_chain.
+  lexer_operator_chars = pinned_lexer_operator_chars /\ lexer_unescape_map = pinned_lexer_unescape_map /\
+  lexer_unescape_pattern = pinned_lexer_unescape_pattern.
 Proof.
-  exact (conj pin_lexer_token_patterns (conj pin_lexer_ascii_aliases (conj pin_lexer_operator_chars pin_lexer_unescape_chain))).
+  exact (conj pin_lexer_token_patterns (conj pin_lexer_ascii_aliases (conj pin_lexer_operator_chars (conj pin_lexer_unescape_map pin_lexer_unescape_pattern)))).
 Qed.
 
 (* the quoting decision of the current source is the one the finding classes were established against *)
@@ -59,6 +62,6 @@ Theorem C04_scalars_survive_text_core :
     exists warns, parse_model cls numcanon holo_ok strict (lines_of (emit sp d)) = PRDoc d [] warns /\ Forall advisory warns.
 Proof. exact text_roundtrip_core. Qed.
 
-(* the excluded string class is needed: a backslash directly before n is read back as a newline (finding C04-escape-order) *)
-Theorem C04_scalars_survive_refuted_escape_order : ~ lex_emit_core_full.
+(* the side condition lex_safe_doc is needed (keys that are literals/operators, bare-emitted strings ...) *)
+Theorem C04_scalars_survive_full_refuted : ~ lex_emit_core_full.
 Proof. exact lex_emit_core_full_refuted. Qed.
